@@ -22,6 +22,7 @@ FINGERPRINTS = [
     (D + "path_resolver.py", ["PathResolver"]),
     (D + "violation_factory.py", ["ViolationFactory"]),
     (D + "linter.py", ["FilePlacementLinter", "FilePlacementRule"]),
+    ("src/cli/linters/structure.py", ["_setup_orchestrator", "_apply_orchestrator_config", "_apply_inline_rules", "_parse_json_rules"]),
 ]
 
 
@@ -459,6 +460,93 @@ def resolver():
     return defn("fp_path_sep", "string", coq_string("/")) + defn("fp_relative_resolved", "bool", "true" if resolved else "false")
 
 
+# ---------------------------------------------------------------- where the rule set comes from
+def source():
+    """FilePlacementRule._extract_inline_config/_get_wrapped_config/_get_unwrapped_config/_get_or_create_linter/_get_layout_path/
+    _load_layout_config, FilePlacementLinter._unwrap_config, cli/linters/structure.py::_apply_*, config_parser._normalize_config_keys:
+    exact statement shapes, with the key names, file names and the dict method as the extracted constants"""
+    rel = D + "linter.py"
+    rule = find_class(parse(rel), "FilePlacementRule")
+
+    def stmts(scope, name):
+        return [ast.unparse(x) for x in _body(find_func(scope, name))]
+    w = stmts(rule, "_get_wrapped_config")
+    wk = _subscript_keys(find_func(rule, "_get_wrapped_config"), "context.metadata")
+    if len(wk) != 2 or w != ["if not hasattr(context, 'metadata'):\n    return None"] + \
+            [f"with suppress(KeyError):\n    return context.metadata['{k}']" for k in wk] + ["return None"]:
+        raise Unsupported("_get_wrapped_config")
+    u = stmts(rule, "_get_unwrapped_config")
+    fu = find_func(rule, "_get_unwrapped_config")
+    sets = [n for n in ast.walk(fu) if isinstance(n, ast.Set)]
+    if len(sets) != 1:
+        raise Unsupported("_get_unwrapped_config: config_keys")
+    uk = sorted(_str(e, "config key") for e in sets[0].elts)
+    if u[0] != "if not hasattr(context, 'metadata'):\n    return None" or not u[1].startswith("config_keys = {") or u[2:] != [
+            "matching_keys = {k: v for k, v in context.metadata.items() if k in config_keys}",
+            "return matching_keys if matching_keys else None"]:
+        raise Unsupported("_get_unwrapped_config")
+    if stmts(rule, "_extract_inline_config") != [
+            "if not self._has_valid_metadata(context):\n    return None", "if context is None:\n    return None",
+            "wrapped_config = self._get_wrapped_config(context)", "if wrapped_config is not None:\n    return wrapped_config",
+            "return self._get_unwrapped_config(context)"]:
+        raise Unsupported("_extract_inline_config")
+    if stmts(rule, "_get_or_create_linter") != [
+            "with suppress(KeyError):\n    return self._linter_cache[project_root]",
+            "config_from_metadata = self._extract_inline_config(context) if context else None",
+            "if config_from_metadata:\n    linter = FilePlacementLinter(config_obj=config_from_metadata, project_root=project_root)\n"
+            "else:\n    layout_path = self._get_layout_path(project_root)\n    layout_config = self._load_layout_config(layout_path)\n"
+            "    linter = FilePlacementLinter(config_obj=layout_config, project_root=project_root)",
+            "self._linter_cache[project_root] = linter", "return linter"]:
+        raise Unsupported("_get_or_create_linter")
+    ll = find_func(rule, "_load_layout_config")
+    lk = _subscript_keys(ll, "config")
+    if len(lk) != 2 or stmts(rule, "_load_layout_config") != [
+            "try:\n    config = self._parse_layout_file(layout_path)\n" +
+            "".join(f"    with suppress(KeyError):\n        return config['{k}']\n" for k in lk) +
+            "    return config\nexcept Exception:\n    return {}"]:
+        raise Unsupported("_load_layout_config")
+    lp = find_func(rule, "_get_layout_path")
+    names = [n.right.value for n in ast.walk(lp) if isinstance(n, ast.BinOp) and isinstance(n.op, ast.Div)
+             and ast.unparse(n.left) == "project_root" and isinstance(n.right, ast.Constant) and isinstance(n.right.value, str)]
+    if len(names) != 2 or stmts(rule, "_get_layout_path") != [
+            "layout_file = self.config.get('layout_file')", "if layout_file:\n    return project_root / layout_file",
+            f"thailint_yaml = project_root / '{names[0]}'", f"thailint_json = project_root / '{names[1]}'",
+            "for path in [thailint_yaml, thailint_json]:\n    if path.exists():\n        return path", "return thailint_yaml"]:
+        raise Unsupported("_get_layout_path")
+    lint = find_class(parse(rel), "FilePlacementLinter")
+    uw = stmts(lint, "_unwrap_config")
+    calls = [n for n in ast.walk(find_func(lint, "_unwrap_config")) if isinstance(n, ast.Call)]
+    uwk = [_str(c.args[0], "unwrap key") for c in sorted(calls, key=lambda c: c.col_offset)]
+    if len(uwk) != 2 or uw != [f"return config.get('{uwk[0]}', config.get('{uwk[1]}', config))"]:
+        raise Unsupported("_unwrap_config")
+    init = ast.unparse(find_func(lint, "__init__"))
+    if "if config_obj:\n        self.config = self._unwrap_config(config_obj)" not in init or "self._components.pattern_validator.validate_config(self.config)" not in init:
+        raise Unsupported("FilePlacementLinter.__init__")
+    # CLI: --rules is merged into the orchestrator's (auto-loaded) config
+    st = parse("src/cli/linters/structure.py")
+    if stmts(st, "_apply_orchestrator_config") != [
+            "if rules:\n    _apply_inline_rules(orchestrator, rules, verbose)\nelif config_file:\n    load_config_file(orchestrator, config_file, verbose)"]:
+        raise Unsupported("_apply_orchestrator_config")
+    ai = stmts(st, "_apply_inline_rules")
+    if len(ai) != 3 or ai[0] != "rules_config = _parse_json_rules(rules)" or not ai[1].startswith("orchestrator.config.") or not ai[1].endswith("(rules_config)"):
+        raise Unsupported("_apply_inline_rules")
+    method = ai[1][len("orchestrator.config."):-len("(rules_config)")]
+    so = stmts(st, "_setup_orchestrator")
+    if so[-3:] != ["orchestrator = Orchestrator(project_root=project_root)", "_apply_orchestrator_config(orchestrator, config_file, rules, verbose)", "return orchestrator"]:
+        raise Unsupported("_setup_orchestrator")
+    nk = find_func(parse("src/core/config_parser.py"), "_normalize_config_keys")
+    reps = [n for n in ast.walk(nk) if isinstance(n, ast.Call) and ast.unparse(n.func) == "key.replace"]
+    if len(reps) != 1 or len(reps[0].args) != 2:
+        raise Unsupported("_normalize_config_keys")
+    a, b = _str(reps[0].args[0], "from"), _str(reps[0].args[1], "to")
+    if len(a) != 1 or len(b) != 1 or not all(32 <= ord(c) < 127 and c != '"' for c in a + b):
+        raise Unsupported("_normalize_config_keys: single characters expected")
+    return (defn("fp_wrapped_keys", "list string", coq_str_list(wk)) + defn("fp_unwrapped_keys", "list string", coq_str_list(uk))
+            + defn("fp_layout_keys", "list string", coq_str_list(lk)) + defn("fp_unwrap_keys", "list string", coq_str_list(uwk))
+            + defn("fp_layout_files", "list string", coq_str_list(names)) + defn("fp_rules_merge_method", "string", coq_string(method))
+            + defn("fp_norm_from", "ascii", f'"{a}"%char') + defn("fp_norm_to", "ascii", f'"{b}"%char'))
+
+
 ITEMS = [
     ("messages", messages),
     ("reasons", reasons),
@@ -467,4 +555,5 @@ ITEMS = [
     ("checker", checker),
     ("validator", validator),
     ("resolver", resolver),
+    ("source", source),
 ]
